@@ -46,11 +46,13 @@ def _presets(op, n, tier):
         return [{"TruestOrFalsest": tf, "NumberToConsider": k} for tf in ("Truest", "Falsest") for k in range(1, n + 2)] + \
                [{"TruestOrFalsest": "Neither", "NumberToConsider": 1}]
     if op == "FuzzyWeightedUnion":
-        ws = [F(1, 2), 1, 2, 3]
+        ws = [0, F(1, 2), 1, 2, 3] if n <= 2 else [F(1, 2), 1, 2, 3]
         if n <= 3:
             vecs = [list(v) for v in itertools.product(ws, repeat=n)]
         else:
             vecs = [[1] * n, [F(1, 2), 1, 2, 3, 1][:n], [3, 2, 1, 1, F(1, 2)][:n]]
+        if n >= 3:
+            vecs += [[(0 if i == z else 1 + i) for i in range(n)] for z in range(n)]  # a zero weight at each position
         if tier == "thorough":
             vecs += [[(-1 if i == 0 else 2) for i in range(n)], [0] * (n - 1) + [1]]
         vecs.append([1] * (n + 1))  # mismatched count
